@@ -311,15 +311,31 @@ def _rest(ck, repo):
         from .c03 import possible_type_sets
         possible_type_sets(ck, repo)
         ev = repo.func("tartiflette/coercers/outputs/abstract_coercer.py", "ensure_valid_runtime_type")
-        evv = FuncView(ev)
+        from ..pathtab import eager_env
+        from ..q import inlined_view
+        evv = inlined_view(repo, ev)
         ep = ev.positional_params
-        binds = [n for n in walk_no_nested(ev.node) if isinstance(n, ast.Assign) and unparse(n.targets[0]) == "runtime_type"]
-        looked = [b for b in binds if unparse(b.value) == f"{ep[1]}.schema.find_type({ep[0]})"]
-        kept = [b for b in binds if unparse(b.value) == ep[0]]
-        ok = len(looked) == 1 and set(evv.conditions(looked[0])) == {(f"isinstance({ep[0]}, str)", "T")} and len(kept) == 2 and \
-            any(set(evv.conditions(b)) == {(f"isinstance({ep[0]}, str)", "F")} for b in kept) and any(evv.try_handlers_around(b) or any(contains(h, b) for h in evv.handlers()) for b in kept)
+        ft = evv.maybe_call("find_type")
+        fst = evv.stmt_of(ft) if ft is not None else None
+        seen = set()
+        for tr in evv.cfg.simulate(lambda n, env: None, follow_exc=lambda n, env: n.kind == "stmt" and n.ast is fst):
+            nodes = tr.nodes
+            idx = [i for i, n in enumerate(nodes) if n.kind == "test" and isinstance(n.ast, ast.Call) and unparse(n.ast.func) == "isinstance"
+                   and len(n.ast.args) == 2 and unparse(n.ast.args[1]) == "GraphQLObjectType"]
+            if not idx:
+                continue
+            pre = eager_env(type(tr)(evv.cfg, tr.path[:idx[0] + 1], {}, "prefix"), "CAUGHT")
+            val = unparse(pre["__sub__"](nodes[idx[0]].ast.args[0]))
+            is_str = None
+            for i, n in enumerate(nodes[:idx[0]]):
+                if n.kind == "test" and unparse(n.ast).replace(" ", "") == f"isinstance({ep[0]},str)":
+                    lab = [l for m, l in evv.cfg.succ[n.id] if m == nodes[i + 1].id]
+                    is_str = lab[0] if lab else None
+            handled = any(n.kind == "handler" for n in nodes[:idx[0]])
+            seen.add((is_str, handled, val))
+        want = {("T", False, f"{ep[1]}.schema.find_type({ep[0]})"), ("T", True, ep[0]), ("F", False, ep[0])}
         ck.ob("ensure_valid_runtime_type: a type *name* is looked up in this request's schema, an object type is taken as it is, an unknown name stays a name (and fails the object-type test)",
-              ok, ev, looked[0] if looked else ev.node, construct="runtime:name-lookup", detail=str([unparse(b)[:60] for b in binds]))
+              seen == want, ev, ft or ev.node, construct="runtime:name-lookup", detail=str(sorted(map(str, seen))))
 
     # ---------------------------------------------------------------- R11
     # "spec-coerced arguments": the argument decision table and the per-declared-argument structure
